@@ -245,6 +245,7 @@ class Router:
         self.F_lookup = mir.find(f, r'router::<impl at [^>]*>::lookup_route$')
         self.F_endpoints = mir.find(f, r'router::<impl at [^>]*>::endpoints$')
         self.F_has_versioned = mir.find(f, r'router::<impl at [^>]*>::has_versioned_routes$')
+        self.F_iter_next = [n for n in mir.find(f, r'router::<impl at [^>]*>::next$', unique=False) if 'HttpRouterIter' in f[n].locals.get('_1', '')][0]
         # pure predicates over version ranges: merged into one term per call (state merging)
         ex.summarize |= {mir.find(f, r'api_description::<impl at [^>]*>::matches$'),
                          mir.find(f, r'api_description::<impl at [^>]*>::overlaps_with$')}
